@@ -165,6 +165,7 @@ def x25519_case():
 def ecdh_case(server):
     def fn(ctx):
         import paramiko.kex_ecdh_nist as KE
+        from paramiko.ssh_exception import SSHException
         point = ctx.bytes("peer_point", 5)
         bad = ctx.flag("library-rejects-the-point")
         seen = []
@@ -193,7 +194,7 @@ def ecdh_case(server):
                     eng._parse_kexecdh_reply(_M(b"hostkey", point, b"sig"))
             except Reached:
                 err = "validated"
-            except ValueError:
+            except (ValueError, SSHException):      # since the C38 repair the library's ValueError is reported as SSHException
                 err = "rejected"
         ctx.prove(len(seen) == 1 and seen[0][0] is eng.curve, "ecdh:point-validated-against-the-negotiated-curve")
         ctx.prove(seen[0][1] == point, "ecdh:the-peer's-bytes-are-validated-unmodified")
